@@ -20,6 +20,25 @@ ObsEffect(o) ==
     IF o.effect # "None" THEN o.effect
     ELSE IF <<o.status, o.bk>> \in RejectSigs THEN "None" ELSE "Other"
 
+(***************************************************************************)
+(* What an operator who reads the documentation MEANS by what he wrote     *)
+(* for HTTPReadOnly (src, see HttpGate): an explicit true / false in the   *)
+(* environment wins over the file, the file over the default; a variable   *)
+(* that is absent or empty says nothing; a value that is not a boolean is  *)
+(* a mistake that must stop the keyper, never "write operations enabled".  *)
+(* Written down independently of the code-shaped Resolved / EnvValue.      *)
+(***************************************************************************)
+MeantValid(src) == src.env # "garbage"
+MeantReadOnly(f, src) ==
+    IF src.env \in {"true", "false"} THEN src.env = "true"
+    ELSE IF src.file \in {"true", "false"} THEN src.file = "true"
+    ELSE TRUE \* documented default of every flavour: read-only
+\* the setting the property is judged with; a configuration that is a mistake enables nothing
+ConfiguredWrite(f, src) == MeantValid(src) /\ ~MeantReadOnly(f, src)
+\* configuration outcome observed from the real command: parsed ("ok" | "error") and the flag it produced
+C18_Config(f, src, parsed, ro) ==
+    IF MeantValid(src) THEN parsed = "ok" /\ ro = MeantReadOnly(f, src) ELSE parsed = "error"
+
 OwnerOps(e) == {o \in Range(DocOps) : EffectOf[o.op] = e}
 
 \* with write operations disabled nothing reaches shutdown, the decryption trigger or any
